@@ -32,6 +32,21 @@ theorem sort_total_preorder (a : ArraySized) (le : Elem → Elem → Bool) (m : 
   rw [s2]
   exact ⟨List.mergeSort_perm _ _, List.pairwise_mergeSort htrans htotal _, s1⟩
 
+/-- **comparators with ties** (total preorders that are not orders): for any key function, sorting by
+"key x ≤ key y" (records with equal keys compare equal although their bytes differ) yields a permutation
+whose **key sequence is non-decreasing** — exactly what the harness observes tie-invariantly for
+`sort cmp=k10` (key `v % 10`): the keys in array order and the multiset of records; nothing is claimed
+about the relative order of tied records (`qsort` is not stable by contract) -/
+theorem sort_by_key_with_ties (a : ArraySized) (key : Elem → Nat) (m : Mem) (h : a.Inv) :
+    let s := (a.sort (fun l => l.mergeSort (fun x y => decide (key x ≤ key y))) m).1
+    s.abs.Perm a.abs ∧ (s.abs.map key).Pairwise (· ≤ ·) ∧ s.Inv := by
+  obtain ⟨h1, h2, h3⟩ := sort_total_preorder a (fun x y => decide (key x ≤ key y)) m h
+    (by intro x y z h1 h2; simp only [decide_eq_true_eq] at *; omega)
+    (by intro x y; simp only [Bool.or_eq_true, decide_eq_true_eq]; omega)
+  refine ⟨h1, ?_, h3⟩
+  rw [List.pairwise_map]
+  exact h2.imp (fun hh => by simpa using hh)
+
 /-- the ends are consistent with the content, capacity and element size are untouched, and so is
 every record at or above `size` (the dead slots of the buffer) -/
 theorem sort_configuration (a : ArraySized) (sortFn : List Elem → List Elem) (m : Mem) (h : a.Inv)
